@@ -11,4 +11,5 @@ int sc_self(void);
 int sc_lock_depth(void *m);
 int sc_lock_owner(void *m);
 extern long sc_pools_created;
+extern int sc_to_budget, sc_foreign_unlock, sc_timeouts;
 #endif
